@@ -381,6 +381,61 @@ def concrete_sweep(ctx, repo, interp, classes, row, why):
            sample={"rule": "R2", "message": desc, "mode": "concrete sweep", "valuations": n, "failing": [list(map(str, b)) for b in bad[:5]]})
 
 
+def payload_lengths_sweep(ctx, repo, interp, row, why):
+    """a message carrying a byte-string payload, built and decoded with concrete payloads of lengths 0, 1, 2, 38, 39, 40 and
+    255 (bytes of every kind: NUL, newline, blank, 0xFF) while the numeric fields hold distinct samples: every expected
+    field - the payload and its length among them - must come back as built"""
+    cname, builder, args, expect, desc = row
+    key = f"{cname}.{builder}[{desc}]"
+    bfi = repo.method(cname, builder)
+    nums = {}
+    for a_ in args:
+        f_ = _field_of(a_)
+        if f_:
+            nums.setdefault(f_[0], f_[1])
+    base = {n: (0x21 + 13 * i) & ((1 << b) - 1) for i, (n, b) in enumerate(sorted(nums.items()))}
+    bad, n = [], 0
+    for ln in (0, 1, 2, 38, 39, 40, 255):
+        data = bytes(([0, 10, 32, 255, 0x3C, 0x27] * 50)[:ln])
+        cargs = [data if (isinstance(a_, SymBytes) and a_.concrete() is None) else _subst(a_, base) for a_ in args]
+        n += 1
+        try:
+            msg = build_message(repo, interp, cname, builder, cargs)
+            wire = wire_of(msg, interp)
+            wire = SymBytes.of(wire).concrete() if wire is not None else None
+            if wire is None:
+                bad.append((ln, "no concrete content"))
+                continue
+            sock = Obj(None, {"queue_send": Native(lambda a_, k_: None), "get_and_increment_sequence_counter": Native(lambda a_, k_: 7)}, name="socket")
+            rx = fresh_handler(repo, interp, repo.cls(cname), sock)
+            interp.steps = 0
+            interp.call(repo.method(cname, "handle"), rx, [wire, SENDER])
+        except PyRaise as e:
+            bad.append((ln, f"raises {e.what}"))
+            continue
+        except Undecided as e:
+            raise AnalysisError(f"{key}: cannot interpret symbolically ({why}) nor with a concrete {ln}-byte payload ({e})")
+        for attr, exp in expect.items():
+            got = read_field(interp, rx, attr)
+            if isinstance(exp, tuple) and exp and exp[0] == "len":
+                want = ln
+            elif isinstance(exp, tuple) and exp and exp[0] == "blob":
+                want = data
+            elif isinstance(exp, tuple) and len(exp) == 2 and isinstance(exp[0], str) and isinstance(exp[1], int):
+                want = base[exp[0]]
+            elif isinstance(exp, tuple):
+                continue
+            else:
+                want = exp
+            got = bytes(got) if isinstance(got, (bytearray, memoryview)) else got
+            if got != want:
+                bad.append((ln, f"`{attr}` decoded as {got!r}, built from {want!r}"))
+    ctx.count(f"R2:payload_lengths_sweep:{cname}.{builder}", n)
+    ctx.ob("R2", f"{key}::payload-lengths", not bad,
+           f"{desc}: {cname}.{builder} -> handle does not round-trip for payload lengths {sorted({b[0] for b in bad})}, e.g. " + "; ".join(f"{ln} bytes: {w}" for ln, w in bad[:3]),
+           bfi.loc, sample={"rule": "R2", "message": desc, "mode": "concrete payload lengths", "lengths": n})
+
+
 def round_trips(ctx, repo):
     interp = Interp(repo, max_depth=10)
     classes = handler_classes(repo)
@@ -476,10 +531,13 @@ def round_trips(ctx, repo):
             ctx.ob("R2", f"{key}::decodes", False, f"{cname}.handle raises {e.what} on the message built by {builder} ({desc})", repo.method(cname, "handle").loc)
             continue
         except Undecided as e:
-            if "truth" in str(e):
-                concrete_sweep(ctx, repo, interp, classes, (cname, builder, args, expect, desc), f"the decoder: {e}")
+            if any(isinstance(a_, SymBytes) and a_.concrete() is None for a_ in args):
+                # a payload of unknown length handled in a way the symbolic bytes do not carry (a slice counted from the
+                # end, a strip): decided on concrete payloads of every interesting length instead, the empty one included
+                payload_lengths_sweep(ctx, repo, interp, (cname, builder, args, expect, desc), f"the decoder: {e}")
                 continue
-            raise AnalysisError(f"{key}: cannot interpret the decoder: {e}")
+            concrete_sweep(ctx, repo, interp, classes, (cname, builder, args, expect, desc), f"the decoder: {e}")
+            continue
         for attr, exp in expect.items():
             got = read_field(interp, rx, attr)
             ok, why = compare(exp, got)
